@@ -209,7 +209,9 @@ class RedlineEngine:
         if not text:
             return []
 
-        token_pattern = re.compile(r"(\*\*.*?\*\*)|(_.*?_)")
+        # Only well-formed emphasis is markup: delimiters hug non-space text, and a single underscore
+        # must not sit inside a word or be part of an underscore run (placeholders, snake_case stay literal).
+        token_pattern = re.compile(r"(\*\*(?=[^\s*])(?:.*?[^\s*])?\*\*)|((?<![\w_])_(?=[^\s_])(?:.*?[^\s_])?_(?![\w_]))")
 
         match = token_pattern.search(text)
 
